@@ -604,6 +604,105 @@ theorem exec_special (ctx : Lscr.Ctx) (k : Nat) (hk : k < 6) (a : Int) (st : PSt
   simp only [specialProps, popInt, PState.pop, hs, Node.name, toInt_natStr, hlt, if_true, special_table k hk, Bind.bind, Except.bind, pure,
     Except.pure, PState.push]
 
+/-! #### built-in properties of an indexed object: `the <p> of sprite / cast / sound n` (5c 06 / 09 / 0d / 04) -/
+
+def objRowOk (tb : List (Nat × String)) (mt : List String) (x : Nat × String) : Bool :=
+  match listGet mt (x.1 : Int) with
+  | .ok n => n == nameOrUnknown tb x.1
+  | .error _ => false
+
+theorem obj_table (tb : List (Nat × String)) (mt : List String) (hall : tb.all (objRowOk tb mt) = true) (k : Nat)
+    (h : tb.any (fun x => x.1 == k) = true) : listGet mt (k : Int) = .ok (nameOrUnknown tb k) := by
+  rw [List.any_eq_true] at h
+  obtain ⟨x, hx, hk⟩ := h
+  have hk' : x.1 = k := by simpa using hk
+  have := List.all_eq_true.mp hall x hx
+  unfold objRowOk at this
+  rw [hk'] at this
+  split at this
+  · rename_i n heq
+    rw [heq, beq_iff_eq.mp this]
+  · cases this
+
+theorem sound_rows : tblSound.all (objRowOk tblSound Gen.PropTables.soundProperties) = true := by decide +kernel
+theorem sprite_rows : tblSprite.all (objRowOk tblSprite Gen.PropTables.spriteProperties) = true := by decide +kernel
+theorem cast_rows : tblCast.all (objRowOk tblCast Gen.PropTables.castProperties) = true := by decide +kernel
+theorem video_rows : tblVideo.all (objRowOk tblVideo Gen.PropTables.videoProperties) = true := by decide +kernel
+
+theorem objProp_ok (cls : Leaf) (tb : List (Nat × String)) (mt : List String) (hall : tb.all (objRowOk tb mt) = true) (k : Nat)
+    (hk : tb.any (fun x => x.1 == k) = true) (a : Int) (st : PState) (p : Int) (x : Node) (nm : Lscr.Name) (hx : x.name = .ok nm)
+    (rest : List Node) (hs : st.stack = .leaf .const (.s (natStr k)) p :: x :: rest) :
+    objProp cls mt st a = .ok { st with stack := .propAcc a (.leaf cls nm a) (nameOrUnknown tb k) :: rest } := by
+  have h1 : (Node.leaf .const (.s (natStr k)) p).name = .ok (.s (natStr k)) := rfl
+  simp only [objProp, popInt, popName, PState.pop, hs, h1, toInt_natStr, hx, obj_table tb mt hall k hk, Bind.bind, Except.bind, pure,
+    Except.pure, PState.push]
+
+theorem exec_objprop (ctx : Lscr.Ctx) (t : Tbl) (cls : Leaf) (tb : List (Nat × String)) (w : String) (ht : theTbl t = some (cls, tb, w))
+    (k : Nat) (hk : tb.any (fun x => x.1 == k) = true) (a : Int) (st : PState) (p : Int) (x : Node) (nm : Lscr.Name)
+    (hx : x.name = .ok nm) (rest : List Node) (hs : st.stack = .leaf .const (.s (natStr k)) p :: x :: rest) :
+    execI ctx (.op2 0x5c t.code) a st = .ok { st with stack := .propAcc a (.leaf cls nm a) (nameOrUnknown tb k) :: rest } := by
+  have hkb : ("bi" = "bi" ∨ "bi" = "tri") := Or.inl rfl
+  cases t with
+  | sound =>
+    simp only [theTbl, Option.some.injEq, Prod.mk.injEq] at ht
+    obtain ⟨rfl, rfl, rfl⟩ := ht
+    have hb : Opcodes.biOpcodes.lookup 23556 = some { cls := "SoundPropertiesOpcode", impl := "SoundPropertiesOpcode", nbytes := 2, kind := "bi", attrs := [] } := rfl
+    simp only [execI, Tbl.code, bi_lookup_5c, hkb, if_true, Nat.reduceMul, Nat.reduceAdd, hb, true_or]
+    have hp : process ctx { cls := "SoundPropertiesOpcode", impl := "SoundPropertiesOpcode", nbytes := 2, kind := "bi", attrs := [] } 0 0 a st
+        = process0 ctx { cls := "SoundPropertiesOpcode", impl := "SoundPropertiesOpcode", nbytes := 2, kind := "bi", attrs := [] } a st := by
+      unfold process
+      rw [if_neg (by decide), if_neg (by decide)]
+    rw [hp]
+    unfold process0
+    exact objProp_ok _ _ _ sound_rows k hk a st p x nm hx rest hs
+  | sprite =>
+    simp only [theTbl, Option.some.injEq, Prod.mk.injEq] at ht
+    obtain ⟨rfl, rfl, rfl⟩ := ht
+    have hb : Opcodes.biOpcodes.lookup 23558 = some { cls := "SpritePropertiesOpcode", impl := "SpritePropertiesOpcode", nbytes := 2, kind := "bi", attrs := [] } := rfl
+    simp only [execI, Tbl.code, bi_lookup_5c, hkb, if_true, Nat.reduceMul, Nat.reduceAdd, hb, true_or]
+    have hp : process ctx { cls := "SpritePropertiesOpcode", impl := "SpritePropertiesOpcode", nbytes := 2, kind := "bi", attrs := [] } 0 0 a st
+        = process0 ctx { cls := "SpritePropertiesOpcode", impl := "SpritePropertiesOpcode", nbytes := 2, kind := "bi", attrs := [] } a st := by
+      unfold process
+      rw [if_neg (by decide), if_neg (by decide)]
+    rw [hp]
+    unfold process0
+    exact objProp_ok _ _ _ sprite_rows k hk a st p x nm hx rest hs
+  | cast =>
+    simp only [theTbl, Option.some.injEq, Prod.mk.injEq] at ht
+    obtain ⟨rfl, rfl, rfl⟩ := ht
+    have hb : Opcodes.biOpcodes.lookup 23561 = some { cls := "CastPropertiesOpcode", impl := "CastPropertiesOpcode", nbytes := 2, kind := "bi", attrs := [] } := rfl
+    simp only [execI, Tbl.code, bi_lookup_5c, hkb, if_true, Nat.reduceMul, Nat.reduceAdd, hb, true_or]
+    have hp : process ctx { cls := "CastPropertiesOpcode", impl := "CastPropertiesOpcode", nbytes := 2, kind := "bi", attrs := [] } 0 0 a st
+        = process0 ctx { cls := "CastPropertiesOpcode", impl := "CastPropertiesOpcode", nbytes := 2, kind := "bi", attrs := [] } a st := by
+      unfold process
+      rw [if_neg (by decide), if_neg (by decide)]
+    rw [hp]
+    unfold process0
+    exact objProp_ok _ _ _ cast_rows k hk a st p x nm hx rest hs
+  | video =>
+    simp only [theTbl, Option.some.injEq, Prod.mk.injEq] at ht
+    obtain ⟨rfl, rfl, rfl⟩ := ht
+    have hb : Opcodes.biOpcodes.lookup 23565 = some { cls := "VideoPropertiesOpcode", impl := "VideoPropertiesOpcode", nbytes := 2, kind := "bi", attrs := [] } := rfl
+    simp only [execI, Tbl.code, bi_lookup_5c, hkb, if_true, Nat.reduceMul, Nat.reduceAdd, hb, true_or]
+    have hp : process ctx { cls := "VideoPropertiesOpcode", impl := "VideoPropertiesOpcode", nbytes := 2, kind := "bi", attrs := [] } 0 0 a st
+        = process0 ctx { cls := "VideoPropertiesOpcode", impl := "VideoPropertiesOpcode", nbytes := 2, kind := "bi", attrs := [] } a st := by
+      unfold process
+      rw [if_neg (by decide), if_neg (by decide)]
+    rw [hp]
+    unfold process0
+    exact objProp_ok _ _ _ video_rows k hk a st p x nm hx rest hs
+  | _ => simp [theTbl] at ht
+
+theorem embH_idx_name (hs : List Spec.Name) (e : Expr) (nm : Lscr.Name) (n : Node) (hi : idxName e = some nm) (h : EmbH hs e n) :
+    n.name = .ok nm := by
+  cases e with
+  | int k => obtain ⟨p, rfl⟩ := h; simp only [idxName, Option.some.injEq] at hi; subst hi; rfl
+  | str v => obtain ⟨p, rfl⟩ := h; simp only [idxName, Option.some.injEq] at hi; subst hi; rfl
+  | var k v =>
+    simp only [idxName, Option.some.injEq] at hi; subst hi
+    cases k <;> (obtain ⟨p, rfl⟩ := h; rfl)
+  | _ => simp [idxName] at hi
+
 theorem embL_length : ∀ (as : List Expr) (ns : List Node), EmbL as ns → ns.length = as.length
   | [], ns, h => by simp only [EmbL] at h; subst h; rfl
   | e :: es, ns, h => by
@@ -647,7 +746,10 @@ theorem EmbH.toEmb (hs : List Spec.Name) : ∀ (e : Expr) (n : Node), EmbH hs e 
   | .plist _, _, h => by simp [EmbH] at h
   | .the t k as, _, h => by
     cases as with
-    | cons x xs => cases t <;> simp [EmbH] at h
+    | cons x xs =>
+      cases xs with
+      | cons y ys => cases t <;> simp [EmbH] at h
+      | nil => simp only [EmbH] at h; simp only [Emb]; exact h
     | nil => cases t <;> first | (simp [EmbH] at h; done) | (simp only [EmbH] at h; simp only [Emb]; exact h)
   | .key _, _, h => by simp only [EmbH] at h; simp only [Emb]; exact h
   | .movie _, _, h => by simp only [EmbH] at h; simp only [Emb]; exact h
@@ -1009,7 +1111,51 @@ theorem stack_lemma : ∀ (e : Expr), FragE e = true → ∀ (c : Spec.Ctx) (s0 
   | .plist _, hf, _, _, _, _, _ => by simp [FragE] at hf
   | .the t k as, hf, c, s0, s1, code, h => by
     cases as with
-    | cons x xs => cases t <;> simp [FragE] at hf
+    | cons x xs =>
+      cases xs with
+      | cons y ys => cases t <;> simp [FragE] at hf
+      | nil =>
+        simp only [FragE, Bool.and_eq_true] at hf
+        obtain ⟨⟨htk, hidx⟩, hfe⟩ := hf
+        cases ht : theTbl t with
+        | none => rw [ht] at htk; simp at htk
+        | some v =>
+          obtain ⟨cls, tb, w⟩ := v
+          rw [ht] at htk
+          simp only at htk
+          obtain ⟨nm, hnm⟩ := Option.isSome_iff_exists.mp hidx
+          have hlow : ∃ ce s' ci, lowerExpr c x s0 = .ok (ce, s') ∧ lowerInt k s' = .ok (ci, s1) ∧ code = ce ++ ci ++ [.op2 0x5c t.code] := by
+            rw [lowerExpr, lowerArgs, lowerArgs] at h
+            simp only [M_bind_ok, M_pure_ok, Prod.mk.injEq] at h
+            obtain ⟨ca, s', ⟨ce, s'', he, cs, s3, ⟨rfl, rfl⟩, rfl, rfl⟩, ci, s4, hi, rfl, rfl⟩ := h
+            exact ⟨ce, _, ci, he, hi, by simp⟩
+          obtain ⟨ce, s', ci, he, hi, rfl⟩ := hlow
+          obtain ⟨hext1, hop1, hrun1⟩ := stack_lemma x hfe c s0 s' ce he
+          obtain ⟨hext2, hop2, hrun2⟩ := lowerInt_ok k s' s1 ci hi
+          refine ⟨hext1.trans hext2, ?_, ?_⟩
+          · intro i hi
+            rcases List.mem_append.mp hi with hi | hi
+            · rcases List.mem_append.mp hi with hi | hi
+              · exact hop1 i hi
+              · exact hop2 i hi
+            · simp only [List.mem_singleton] at hi; subst hi; simp [Instr.opc]
+          intro sF ctx hF hrel G hG a st hb hgv
+          obtain ⟨n, gv1, hemb, hgv1, hr1⟩ := hrun1 sF ctx (hext2.trans hF) hrel G (by simpa [Expr.vars, Expr.varsList] using hG) a st hb hgv
+          obtain ⟨i, rfl, hex⟩ := hrun2 c sF ctx hF hrel ((a + codeSize ce : Nat) : Int)
+            { st with stack := n :: st.stack, gvars := gv1 } hb
+          have hname := embH_idx_name c.handlers x nm n hnm hemb
+          have hs := exec_objprop ctx t cls tb w ht k htk ((a + codeSize (ce ++ [i]) : Nat) : Int)
+            { st with stack := .leaf .const (.s (natStr k)) ((a + codeSize ce : Nat) : Int) :: n :: st.stack, gvars := gv1 }
+            ((a + codeSize ce : Nat) : Int) n nm hname st.stack rfl
+          refine ⟨.propAcc ((a + codeSize (ce ++ [i]) : Nat) : Int) (.leaf cls nm ((a + codeSize (ce ++ [i]) : Nat) : Int))
+            (nameOrUnknown tb k), gv1, ?_, hgv1, ?_⟩
+          · simp only [EmbH]; exact ⟨_, _, cls, tb, w, nm, ht, hnm, rfl⟩
+          · rw [runIs_append, runIs_append, hr1]
+            simp only [Except.bind]
+            rw [runIs_single, hex]
+            simp only [Except.bind]
+            rw [runIs_single]
+            exact hs
     | nil =>
       have hlow : ∃ ci, lowerInt k s0 = .ok (ci, s1) ∧ code = ci ++ [.op2 0x5c t.code] := by
         rw [lowerExpr, lowerArgs] at h
